@@ -18,7 +18,7 @@ ALL = ["C01","C02","C03","C04","C05","C06","C07","C08","C09","C10","C11","C12","
 
 # which checks are expected to be relevant for a change of property X (the property's own check first)
 RELATED = {
- "C01": ["C01","C08","C10"], "C02": ["C02","C03"], "C03": ["C03","C02"], "C04": ["C04","C12"], "C05": ["C05","C03","C13"], "C06": ["C06"],
+ "C01": ["C01","C08","C10"], "C02": ["C02","C03"], "C03": ["C03","C02","C20"], "C04": ["C04","C12"], "C05": ["C05","C03","C13","C07"], "C06": ["C06"],
  "C07": ["C07","C12","C09"], "C08": ["C08"], "C09": ["C09","C07"], "C10": ["C10","C17"], "C11": ["C11","C17"],
  "C12": ["C12","C15","C16","C07"], "C13": ["C13","C14"], "C14": ["C14","C13"], "C15": ["C15","C12"], "C16": ["C16","C12"],
  "C17": ["C17","C12","C10","C11"], "C18": ["C18"], "C19": ["C19","C06","C11","C10"], "C20": ["C20"],
